@@ -142,6 +142,7 @@ fn build(kind: Kind, exprs: &[Vec<bool>]) -> (Schema, Document, Named) {
     let mut vars = Vec::new();
     let mut probe_args = Vec::new();
     let mut call_args = Vec::new();
+    let mut thing_sel: Vec<Selection> = Vec::new();
     for (i, nn) in exprs.iter().enumerate() {
         let ty = TypeExpr::new(named, nn.clone());
         if named.is_input_kind() && kind != Kind::Input || kind == Kind::Input {
@@ -156,6 +157,17 @@ fn build(kind: Kind, exprs: &[Vec<bool>]) -> (Schema, Document, Named) {
             probe_args.push(ArgDef { name: format!("a{}", i), ty: aty });
             call_args.push((format!("a{}", i), ArgValue::Var(format!("v{}", i))));
         }
+        if !matches!(kind, Kind::Input | Kind::Object | Kind::Interface | Kind::Union) {
+            // the same expression on an object that implements an interface declaring the field with the
+            // all-nullable form (a covariant re-declaration): the object's own modifiers count
+            let mut loose = ty.clone();
+            for b in loose.nonnull.iter_mut() {
+                *b = false;
+            }
+            schema.interfaces[0].fields.push(FieldDef { name: format!("g{}", i), ty: loose, args: vec![], deprecated: None, description: None });
+            schema.objects[0].fields.push(FieldDef { name: format!("g{}", i), ty: ty.clone(), args: vec![], deprecated: None, description: None });
+            thing_sel.push(Selection::Field(FieldSel { alias: None, name: format!("g{}", i), args: vec![], sel: vec![] }));
+        }
         if kind != Kind::Input {
             schema.objects[1].fields.push(FieldDef { name: format!("f{}", i), ty, args: vec![], deprecated: None, description: None });
             let sub = match kind {
@@ -166,6 +178,10 @@ fn build(kind: Kind, exprs: &[Vec<bool>]) -> (Schema, Document, Named) {
             };
             sel.push(Selection::Field(FieldSel { alias: None, name: format!("f{}", i), args: vec![], sel: sub }));
         }
+    }
+    if !thing_sel.is_empty() {
+        schema.objects[1].fields.push(FieldDef { name: "thing".into(), ty: TypeExpr::plain(Named::Object(0), true), args: vec![], deprecated: None, description: None });
+        sel.push(Selection::Field(FieldSel { alias: None, name: "thing".into(), args: vec![], sel: thing_sel }));
     }
     if schema.inputs[2].fields.is_empty() {
         schema.inputs[2].fields.push(InputFieldDef { name: "unused".into(), ty: TypeExpr::plain(Named::Int, false), default: None });
@@ -230,7 +246,7 @@ fn extract(tokens: &str) -> Result<Extracted, String> {
 }
 
 pub fn run(report: &mut Report, replay: Option<&Value>) {
-    report.rule = "exhaustive: all 62 type expressions of list depth 0-4 (every placement of `!`) x named kinds {Int, Float, String, Boolean, ID, custom scalar, enum, object, interface, union; input object} x positions {response field, variable, input-object field, @oneOf member} x schema formats {SDL, introspection JSON}. Oracle: an independently written mapping (`!` removes one Option, a list becomes Vec, per level; @oneOf variants carry the value without the outer Option); the field's syn::Type, whitespace-normalised, must equal it (composite response types: the innermost, path-derived name is a wildcard that must be defined in the module); the module's aliases must be Boolean = bool, Float = f64, Int = i64, ID = String. Non-trivial: list depth >= 2; distinct by (kind, expression, position, format).".into();
+    report.rule = "exhaustive: all 62 type expressions of list depth 0-4 (every placement of `!`) x named kinds {Int, Float, String, Boolean, ID, custom scalar, enum, object, interface, union; input object} x positions {response field, field of an object whose interface declares it all-nullable, variable, input-object field, @oneOf member} x schema formats {SDL, introspection JSON, SDL declaring the built-in scalars}. Oracle: an independently written mapping (`!` removes one Option, a list becomes Vec, per level; @oneOf variants carry the value without the outer Option); the field's syn::Type, whitespace-normalised, must equal it (composite response types: the innermost, path-derived name is a wildcard that must be defined in the module); the module's aliases must be Boolean = bool, Float = f64, Int = i64, ID = String. Non-trivial: list depth >= 2; distinct by (kind, expression, position, format).".into();
     report.assumptions = vec!["syn parses the emitted tokens faithfully".into(), "the JSON rendering carries `isOneOf` (the answer to the one-of introspection query)".into()];
     let _ = replay;
     let mut exprs: Vec<Vec<bool>> = Vec::new();
@@ -321,6 +337,9 @@ pub fn run(report: &mut Report, replay: Option<&Value>) {
             if *kind != Kind::Input {
                 let wildcard = matches!(kind, Kind::Object | Kind::Interface | Kind::Union);
                 check(report, "response_field", i, ex.fields.get(&("ResponseData".to_string(), format!("f{}", i))), false, wildcard);
+            }
+            if !matches!(kind, Kind::Input | Kind::Object | Kind::Interface | Kind::Union) {
+                check(report, "implementor_field", i, ex.fields.get(&("ProbeThing".to_string(), format!("g{}", i))), false, false);
             }
             if !matches!(kind, Kind::Object | Kind::Interface | Kind::Union) {
                 check(report, "variable", i, ex.fields.get(&("Variables".to_string(), format!("v{}", i))), false, false);
